@@ -255,7 +255,32 @@ class Program:
                o._hour_of_day == 24]
         ap = rng.choice(trunc) if trunc and rng.random() < 0.5 else p
         aq = rng.choice(eod) if eod and rng.random() < 0.5 else q
+        def iop(a, b, op):
+            """augmented assignment on a second name for `a`"""
+            x = a
+            if op == "+":
+                x += b
+            elif op == "-":
+                x -= b
+            elif op == "*":
+                x *= b
+            else:
+                x //= b
+            return x
         menu = [
+            ("dur+=dur", (d, e), lambda: iop(d, e, "+")),
+            ("dur-=dur", (e, d), lambda: iop(e, d, "-")),
+            ("dur*=n", (d,), lambda: iop(d, n, "*")),
+            ("dur//=n", (e,), lambda: iop(e, n or 2, "//")),
+            ("tp+=dur", (fp, e), lambda: iop(fp, e, "+")),
+            ("tp-=dur", (fp, d), lambda: iop(fp, d, "-")),
+            ("any+=dur", (aq, d), lambda: iop(aq, d, "+")),
+            ("rec+=dur", (r, e), lambda: iop(r, e, "+")),
+            ("rec-=dur", (r, e), lambda: iop(r, e, "-")),
+            ("tp.time_zone+=dur", (p, e), lambda: iop(p.time_zone, e, "+")),
+            ("rec.duration+=dur", (r, e), lambda: iop(r.duration, e, "+")),
+            ("rec.start_point+=dur", (r, e),
+             lambda: iop(r.start_point, e, "+")),
             ("tp+dur", (fp, d), lambda: fp + d),
             ("dur+tp", (e, fp), lambda: e + fp),
             ("tp-dur", (fp, e), lambda: fp - e),
